@@ -904,6 +904,21 @@ def evaluate(case, native):
             return True, (f'a job of compatibility class {case["class"]} is {"rejected" if native["rejected"] else "admitted"} by a tour whose jobs have classes {case["classes"]} '
                           f'(tag before the refresh: {case["previous_tag"]})')
         return False, 'compatibility rule agrees with the tour'
+    if kind == 'lock_rule':
+        seq, p_, m_, pos = case['tour'], case['leg'], case['locked'], case['position']
+        new_seq = seq[:p_ + 1] + ['new'] + seq[p_ + 1:]
+        idx = [i for i, lab in enumerate(new_seq) if lab.startswith('L')]
+        ok = idx == list(range(idx[0], idx[0] + m_))
+        if pos in ('departure', 'fixed') and idx[0] != 1:
+            ok = False
+        if pos in ('arrival', 'fixed') and idx[-1] != len(new_seq) - 2:
+            ok = False
+        if native['rejected'] == ok:
+            return True, f'strict lock ({pos}) on {seq}: a job offered at leg {p_} is {"rejected" if native["rejected"] else "admitted"} although the insertion {"keeps" if ok else "breaks"} the lock'
+        if native['locked_rejected'] == case['condition_holds'] or native['free_rejected']:
+            return True, (f'route level: locked job {"rejected" if native["locked_rejected"] else "admitted"} while the lock condition {"holds" if case["condition_holds"] else "does not hold"} '
+                          f'for the vehicle; unrelated job {"rejected" if native["free_rejected"] else "admitted"}')
+        return False, 'lock rule agrees'
     if kind == 'statistic_sum':
         for k_ in ('cost', 'distance', 'duration', 'driving', 'serving', 'waiting', 'break_time', 'commuting', 'parking'):
             want = case['a'][k_] + case['b'][k_]
